@@ -89,6 +89,14 @@ def registry():
     return R
 
 
+NOT_APPLICABLE = {
+    "C05": "Range rectangle consistency is index arithmetic over run-time coordinates (inner.len() == width*height, placement, growth, windowing); no structural clause is a necessary condition, and a symbolic length algebra would be a solver, i.e. a different technique family",
+    "C11": "epoch, leap-year shim, rounding and monotonicity are numeric; only the totality clause (no panicking chrono call with an unguarded operand) is structural and it is not yet built",
+    "C15": "shared-formula translation is a text rewrite over an open formula language; which substrings are references and the offset arithmetic are value-level (amplification through the ref attribute is covered under C06)",
+    "C18": "VBA decompression correctness is bit-level arithmetic over token streams; module naming and offsets are run-time values (robustness of decompress_stream is covered under C06)",
+}
+
+
 def run_property(prop, tier, repo):
     R = registry()
     if prop == "ALL":
